@@ -59,6 +59,9 @@ var knownTags = map[string]string{
 	// ClassStatement.Construct (inherited constructor resolved by the parser) is not emitted
 	"cls-inherit":            "diff:cls-inherit",
 	"cls-exception-subclass": "diff:cls-exception-subclass",
+	// the generated program builds every node with one zero `from`: every position a diagnostic
+	// prints is line 1 (positions are normalised away in every other program, batch.go normOut)
+	posTag: "diff:pos-diagnostic-line",
 }
 
 // aloneOnly: features the generator refuses with an explicit compile error; they run alone
@@ -176,6 +179,7 @@ func (rn *runner) judge(progs []*Prog, br *BatchResult, shrinkPass bool) {
 				}
 			}
 		}
+		opComplete(c, p, io)
 		if rn.explore != nil && os.Getenv("C16_ONLY") != "" {
 			fmt.Fprintf(rn.explore, "OBS %s %v same=%v\n  compiled: %s\n  interp:   %s\n", p.Name, p.Tags, co.Same(io), co, io)
 		}
@@ -197,6 +201,19 @@ func (rn *runner) judge(progs []*Prog, br *BatchResult, shrinkPass bool) {
 			for k, v := range p.Libs {
 				fmt.Fprintf(rn.explore, "--- lib %s\n%s\n", k, v)
 			}
+		}
+		if p.Min != nil && !shrinkPass {
+			// an operand program: the records that differ become one-closure programs in the shrink batch
+			if len(p.Min(co, io)) == 0 && !(strings.Contains(co.Out, "#end|") && strings.Contains(io.Out, "#end|")) {
+				// the runner capped an output: the raw texts have different lengths (positions), so the two
+				// were cut at different records; every record present on both sides agrees. Not a
+				// difference of the programs — but records were lost: counted, and noted by opComplete
+				c.Hit("op:truncated-output")
+				continue
+			}
+			p.failCo, p.failIo = co, io
+			rn.failing = append(rn.failing, p)
+			continue
 		}
 		if len(p.Tags) == 1 {
 			c.Violation(sigFor(p.Tags[0]), diffWhat(p, co, io), caseOf(p))
@@ -345,6 +362,13 @@ func (rn *runner) shrink() {
 		lim = lim[:40]
 	}
 	for _, p := range lim {
+		if p.Min != nil {
+			for _, q := range p.Min(p.failCo, p.failIo) {
+				owner[q.Name] = p
+				progs = append(progs, q)
+			}
+			continue
+		}
 		if len(p.Parts) == 0 {
 			continue
 		}
@@ -441,7 +465,7 @@ func Run(c *vh.Ctx) {
 		return
 	}
 
-	c.Res.Rule = "differential: every program is translated by the real compile command, linked into one runner binary per batch and run compiled (Register+RunCompiledFile) and interpreted (LoadAndRun) in separate child processes; compared: stdout, kind of the uncaught error (first stderr line without file/position), exit status. Programs: every feature of the alphabet alone (exhaustive over the alphabet), seeded mixes of 2..5 features, lexh.GenSafe programs, library+entry class programs, order features (every ordered collection of the AST — class properties, parameters, arguments, array items, statements, match arms, catch clauses, switch cases, interface and use lists, operands — declared in a seeded scrambled order and printed through every observer: foreach, json_encode, (array) cast, var_dump, string conversion, serialize, first key, first-match-wins dispatch, tracer calls), scalar-payload features (every payload class — strings with 0/1/2/3/many newlines, tabs after newlines, backtick, backslash, quotes, `$`, printf verbs, NUL/control bytes, CR, invalid UTF-8, multi-byte and non-printable runes, syntax look-alikes, empty, very long; ints at the 7..63-bit boundaries in every base; floats incl. -0.0, 5e-324, 1e308, 17 digits, INF/NAN by expression; bools, null; unusual identifiers and keys — in every literal form: escaped / real newlines in double and single quotes, heredoc, nowdoc, indented marker, interpolation parts, inline HTML — at every nesting context of the generator incl. library-class members; a difference is shrunk to the single payload+context), deterministic echo-only corpus files. non-trivial = the interpreted run prints something or ends in an uncaught error; distinct = distinct source text. structural: per AST node type found in parsed snippets, Emit's path and the field list of a reflective literal, model vs real Generator; order probe: exchanging two distinguishable members of an ordered field that reaches the text must change the text the real Generator emits; scalar probe: every scalar field of every node type is set to every payload of its class and emitted by the real Generator at three indentation depths — the generated text, parsed by go/parser and evaluated by go/constant, must contain a literal equal to the payload (model tie: Lean unquote = Go's reading of every string literal, Lean quote = the generator's text)"
+	c.Res.Rule = "differential: every program is translated by the real compile command, linked into one runner binary per batch and run compiled (Register+RunCompiledFile) and interpreted (LoadAndRun) in separate child processes; compared: stdout, kind of the uncaught error (first stderr line without file/position), exit status. Programs: every feature of the alphabet alone (exhaustive over the alphabet), seeded mixes of 2..5 features, lexh.GenSafe programs, library+entry class programs, order features (every ordered collection of the AST — class properties, parameters, arguments, array items, statements, match arms, catch clauses, switch cases, interface and use lists, operands — declared in a seeded scrambled order and printed through every observer: foreach, json_encode, (array) cast, var_dump, string conversion, serialize, first key, first-match-wins dispatch, tracer calls), scalar-payload features (every payload class — strings with 0/1/2/3/many newlines, tabs after newlines, backtick, backslash, quotes, `$`, printf verbs, NUL/control bytes, CR, invalid UTF-8, multi-byte and non-printable runes, syntax look-alikes, empty, very long; ints at the 7..63-bit boundaries in every base; floats incl. -0.0, 5e-324, 1e308, 17 digits, INF/NAN by expression; bools, null; unusual identifiers and keys — in every literal form: escaped / real newlines in double and single quotes, heredoc, nowdoc, indented marker, interpolation parts, inline HTML — at every nesting context of the generator incl. library-class members; a difference is shrunk to the single payload+context), operand features (every syntactic form with operand positions — 25 binary / comparison / logical / bitwise / coalescing operators, unary operators, casts, empty / isset / clone / instanceof / like, ternary, match subject and arm, array key / element / spread, index, range, interpolation, property access, call / new / throw arguments, variable variables, ++/-- in 8 statement shapes, 13 compound assignments in 4 shapes, plain / chained / list assignment, switch / foreach / echo / unset / static / heredoc subjects — as one closure per probe: variable × variable, variable × literal, literal × variable, literal × literal, in the value, assignment, if, for, while, do-while, ternary and loop-counter contexts, called with every value of a 64-value pool: ints incl. the limits, floats incl. the fractional neighbours of every int literal used, -0.0, INF, NAN, numeric and non-numeric strings, bools, null, arrays, objects; the result is var_dumped, a differing record becomes a one-closure one-call program), deterministic echo-only corpus files. non-trivial = the interpreted run prints something or ends in an uncaught error; distinct = distinct source text. structural: per AST node type found in parsed snippets, Emit's path and the field list of a reflective literal, model vs real Generator; order probe: exchanging two distinguishable members of an ordered field that reaches the text must change the text the real Generator emits; scalar probe: every scalar field of every node type is set to every payload of its class and emitted by the real Generator at three indentation depths — the generated text, parsed by go/parser and evaluated by go/constant, must contain a literal equal to the payload (model tie: Lean unquote = Go's reading of every string literal, Lean quote = the generator's text)"
 
 	// ---- structural correspondence (model vs real Generator)
 	structStream(c, m)
@@ -466,6 +490,7 @@ func Run(c *vh.Ctx) {
 		// development aid: only the features whose tag starts with $C16_ONLY, $C16_REPS times each, one batch
 		reps := 1
 		fmt.Sscanf(os.Getenv("C16_REPS"), "%d", &reps)
+		opFull = os.Getenv("C16_OPFULL") != "" // the operand programs as in the first thorough round
 		var progs []*Prog
 		for i := range features {
 			if strings.HasPrefix(features[i].Tag, only) {
@@ -492,10 +517,16 @@ func Run(c *vh.Ctx) {
 		id := 0
 		name := func(prefix string) string { id++; return fmt.Sprintf("%s%db%d", prefix, id, b) }
 		reps := c.N(1, 2)
+		// operand programs: every literal in every context in the first round of the thorough tier
+		// (a seeded rotation of the literals otherwise — every int literal always)
+		opFull = c.Thorough() && b == 0
 		// batch E: entry-only programs
 		var progs []*Prog
 		for _, f := range entryPool {
 			for k := 0; k < reps; k++ {
+				if k > 0 && opFull && opMultis[f.Tag] != nil {
+					continue // a full operand program has every literal in every context: a second one is the same program
+				}
 				progs = append(progs, FeatProg(c.Rand, f, name("f"), "feat"))
 			}
 		}
@@ -536,7 +567,7 @@ func Run(c *vh.Ctx) {
 	}
 	rn.shrink()
 	c.Res.Exhaustive = true
-	c.Res.ExhaustiveWhat = fmt.Sprintf("every single-feature program of the %d-feature alphabet (control flow, expressions, functions, closures, exceptions, library classes, entry-file declarations, ordered collections, scalar payloads), each with seeded parameters; the scalar probe over every (scalar field, payload) pair", len(features))
+	c.Res.ExhaustiveWhat = fmt.Sprintf("every single-feature program of the %d-feature alphabet (control flow, expressions, functions, closures, exceptions, library classes, entry-file declarations, ordered collections, scalar payloads, operand kinds), each with seeded parameters; the scalar probe over every (scalar field, payload) pair", len(features))
 	if m != nil {
 		c.Res.ModelLines = m.Lines
 	}
